@@ -31,7 +31,9 @@ extern int vp_native_trace;
 #else
 u8 nondet_u8(void); u16 nondet_u16(void); u32 nondet_u32(void); u64 nondet_u64(void);
 float nondet_f32(void); double nondet_f64(void);
-#define VP_SPAWN(fn,arg) do{ __CPROVER_ASYNC_1: (fn)(arg); }while(0)
+#define VP_SPAWN3(fn,arg,n) do{ __CPROVER_ASYNC_##n: (fn)(arg); }while(0)
+#define VP_SPAWN2(fn,arg,n) VP_SPAWN3(fn,arg,n)
+#define VP_SPAWN(fn,arg) VP_SPAWN2(fn,arg,__COUNTER__)
 #endif
 
 #define VP_ASSERT(c,l) __CPROVER_assert((c), "VP:" l)
@@ -106,11 +108,14 @@ extern const u8 *vp_sh_base; extern u64 vp_sh_size; extern u8 vp_sh_w[]; extern 
 #else
 #define VP_CHK(p,sz) __CPROVER_assert(vp_objsz[__CPROVER_POINTER_OBJECT(p)] == 0 || (u64)__CPROVER_POINTER_OFFSET(p) + (sz) < vp_objsz[__CPROVER_POINTER_OBJECT(p)], "MEM:access beyond the requested size of a heap block")
 #endif
-extern u64 vp_objsz[1024];
+#ifndef VP_NOBJ
+#define VP_NOBJ 256
+#endif
+extern u64 vp_objsz[VP_NOBJ];
 /* symbolic-length byte operations as plain loops (cbmc's built-in array copy with a symbolic size does not terminate in post-processing) */
-static inline void vp_memcpy(u8 *d, const u8 *s, u64 n){ if(n){ VP_CHK(d+n-1,1); VP_CHK(s+n-1,1); memcpy(d,s,n);} }
-static inline void vp_memmove(u8 *d, const u8 *s, u64 n){ if(n){ VP_CHK(d+n-1,1); VP_CHK(s+n-1,1); memmove(d,s,n);} }
-static inline void vp_memset(u8 *d, u8 c, u64 n){ if(n){ VP_CHK(d+n-1,1); memset(d,c,n);} }
+static inline void vp_memcpy(u8 *d, const u8 *s, u64 n){ for (u64 i = 0; i < n; i++) { VP_CHK(d+i,1); VP_CHK(s+i,1); d[i] = s[i]; } }
+static inline void vp_memmove(u8 *d, const u8 *s, u64 n){ if ((u64)d <= (u64)s || (u64)d >= (u64)s + n) { for (u64 i = 0; i < n; i++) { VP_CHK(d+i,1); VP_CHK(s+i,1); d[i] = s[i]; } } else { for (u64 i = n; i > 0; i--) { VP_CHK(d+i-1,1); VP_CHK(s+i-1,1); d[i-1] = s[i-1]; } } }
+static inline void vp_memset(u8 *d, u8 c, u64 n){ for (u64 i = 0; i < n; i++) { VP_CHK(d+i,1); d[i] = c; } }
 static inline u32 vp_ctlz32(u32 x){ u32 n=0; if(!x) return 32; while(!(x&0x80000000u)){x<<=1;n++;} return n; }
 static inline u64 vp_ctlz64(u64 x){ u64 n=0; if(!x) return 64; while(!(x&0x8000000000000000ull)){x<<=1;n++;} return n; }
 static inline u32 vp_cttz32(u32 x){ u32 n=0; if(!x) return 32; while(!(x&1)){x>>=1;n++;} return n; }
